@@ -234,9 +234,16 @@ func c10Profiles(tier Tier) []*explore.Profile {
 	// hand-over and SetUserName messages
 	other := &explore.Profile{
 		Name: "continuations", EnvCfg: ledgerEnv(2), Depth: 3, Deadline: tierDeadline(tier), Oracles: mk(),
-		Seeds: seedsOf("sft", "handover"),
+		Seeds: func(env *world.Env) []explore.SeedState {
+			out := seedsOf("sft", "handover")(env)
+			// a create role that was never used: its hand-over ships the counter 0, i.e. an empty
+			// last argument, which the next owner's shard has to accept
+			b := uni.SeedBuilder(env, "sft")
+			b.Must(uni.SetRole(uni.B0, uni.R, vmcommon.ESDTRoleNFTCreate))
+			return append(out, explore.SeedState{Name: "sft+unused-create-role", W: b.W, Legs: b.Legs, Failed: b.Failed})
+		},
 		Menu: func(w *world.World) []world.Action {
-			acts := handoverMenu(w, o, [][]byte{uni.S})
+			acts := handoverMenu(w, o, [][]byte{uni.S, uni.R})
 			for _, a := range users(o) {
 				acts = append(acts, uni.Create(a, uni.S, 1))
 			}
